@@ -18,6 +18,13 @@ from vlib import fockref, hubbard
 from vlib.monitor import ev, judge
 
 ID = "C10"
+LEVEL_TEXT = ("The real CPMC propagators are executed on batches that force every one of the 2^n field configurations, with branch probabilities "
+              "measured from the running code by multi-section on the uniform number; the weighted sum of propagated walkers is compared in Fock "
+              "space with the exact Trotter product of the lattice Hamiltonian; incremental overlap ratios / Green's functions are compared with "
+              "from-scratch values for every ordered pair of spin orbitals; fast and slow propagators are compared step by step. Exhaustive over "
+              "field configurations and pairs per case, exploration over lattices / fillings / U / dt / trials / walkers.")
+LEVEL_NOTE = "trusted: NumPy/SciPy expm, vlib.fockref; n_sites <= 4; branch probabilities resolved to 33^-8"
+TECHNIQUE = "runtime monitoring: exhaustive field-configuration sum with probabilities measured from the running code + Fock-space propagator oracle"
 RULE = ("cases = lattice (chains 2-4 sites periodic/open, 2x2 grid; optional site disorder) x filling x U x dt x "
         "trial (UHF/GHF; uniform, spin-density-wave, random orthonormal orbitals) x walker (trial + noise) x "
         "propagator; fieldsum cases enumerate all 2^n field configurations with measured branch "
